@@ -2,7 +2,7 @@ SPECIFICATION Spec
 CONSTANTS
   Part = "rewind"
   Seeds = {"s1", "s2"}
-  Comps = {"c0", "h0"}
+  Comps = {"c0", "nmax", "h0"}
   HardComps = {"h0"}
   Amts = {"a0", "amax"}
   MaxDepth = 2
